@@ -38,3 +38,56 @@ func TestJSXOnly(t *testing.T) {
 	H.Sub(t, "jsxrt", runJSXRT)
 	H.Sub(t, "jsxlit", runJSXLit)
 }
+
+func TestJSXTiming(t *testing.T) {
+	if os.Getenv("JSXTIME") == "" {
+		t.Skip()
+	}
+	setup(t)
+	defer W.Close()
+	var cases []JSXCase
+	rapid.Check(t, func(rt *rapid.T) {
+		cases = append(cases, genJSXCase(rt, os.Getenv("JSXTIME") == "lit"))
+	})
+	fmt.Println("cases", len(cases))
+	t0 := timeNow()
+	tot := 0
+	for _, c := range cases {
+		r := jsxTransform(c)
+		tot += len(r.e1)
+	}
+	fmt.Println("transform", timeSince(t0), "bytes", tot)
+	t0 = timeNow()
+	for lo := 0; lo+6 <= len(cases); lo += 6 {
+		judgeJSX(cases[lo : lo+6])
+	}
+	fmt.Println("judge", timeSince(t0))
+}
+
+func TestJSXTiming2(t *testing.T) {
+	if os.Getenv("JSXTIME2") == "" {
+		t.Skip()
+	}
+	setup(t)
+	defer W.Close()
+	code := jsxWrap(`log("r", __h("a", null, p(1, 2)));`)
+	var codes []string
+	for i := 0; i < 18; i++ {
+		codes = append(codes, code)
+	}
+	t0 := timeNow()
+	for i := 0; i < 50; i++ {
+		W.Batch(codes, jsxPrelude)
+	}
+	fmt.Println("50 batches of 18:", timeSince(t0))
+	t0 = timeNow()
+	for i := 0; i < 50; i++ {
+		W.Batch(codes[:1], "")
+	}
+	fmt.Println("50 batches of 1 no prelude:", timeSince(t0))
+	t0 = timeNow()
+	for i := 0; i < 50; i++ {
+		moduleTrace(`import {jsx} from "react/jsx-runtime"; log("r", jsx("a", {}));`)
+	}
+	fmt.Println("50 module calls:", timeSince(t0))
+}
